@@ -951,6 +951,33 @@ def run_confusion(job, io):
                     getattr(sp3, how)(liar)
                 except (ValueError, TypeError, RuntimeError, IndexError):
                     pass
+        # an OrderedDict whose two halves disagree (written / deleted through dict.* behind its back): the engine reads the
+        # size from one half and the keys from the other -- a Python exception or a CONSISTENT result, not a treespec whose
+        # arity and key list differ
+        for desync in ('extra-in-dict', 'missing-in-dict', 'both'):
+            od = OrderedDict([('b', U.Leaf(1)), ('a', [U.Leaf(2)]), ('c', U.Leaf(3))])
+            if desync in ('extra-in-dict', 'both'):
+                dict.__setitem__(od, 'zz', U.Leaf(4))
+            if desync in ('missing-in-dict', 'both'):
+                dict.__delitem__(od, 'a')
+            probes['desync-odict'] += 1
+            for opn, f in (('flatten', lambda: check_flat(optree.tree_flatten([od]))), ('with_path', lambda: check_flat(optree.tree_flatten_with_path([od])[1:])),
+                           ('iter', lambda: list(optree.tree_iter([od]))), ('structure-use', lambda: (lambda sp: (repr(sp), hash(sp), sp.paths(), sp.entries(), sp.children(), sp.unflatten(list(range(sp.num_leaves)))))(optree.tree_structure(od))),
+                           ('map', lambda: optree.tree_map(lambda a, b: a, od, od)), ('from_collection', lambda: repr(optree.treespec_from_collection(OrderedDict((k, optree.treespec_leaf()) for k in od)))),
+                           ('one_level', lambda: optree.tree_flatten_one_level(od)), ('flatten_up_to', lambda: optree.tree_structure({'b': 0, 'a': [0], 'c': 0}).flatten_up_to(od))):
+                io.progress({'site': 'confusion:desync-odict:%s:%s' % (desync, opn), 'tape': tape.values})
+                try:
+                    f()
+                    oc = 'ok'
+                except Inconsistent as e:
+                    oc = 'inconsistent'
+                    violations.append({'cls': 'inconsistent', 'site': 'confusion:desync-odict:%s' % opn, 'msg': 'an OrderedDict out of sync with its underlying dict (%s) gives an inconsistent result: %s' % (desync, e)})
+                except SystemError as e:
+                    oc = 'internal'
+                    violations.append({'cls': 'inconsistent', 'site': 'confusion:desync-odict:%s' % opn, 'msg': 'an OrderedDict out of sync with its underlying dict (%s): the treespec the engine built contradicts itself: %s' % (desync, str(e)[:200])})
+                except (ValueError, TypeError, RuntimeError, KeyError, IndexError):
+                    oc = 'exc'
+                keys.add('cf|desync-odict|%s|%s|%s' % (desync, opn, oc))
     finally:
         reg.unregister_all()
     del violations[6:]
